@@ -45,6 +45,7 @@ fn dispatch(cmd: &str, args: &[&str]) -> String {
         "CMP" => lang::cmp(args),
         "AST" => lang::ast(args),
         "BKD" => bkd::bkd(args),
+        "BKDR" => bkd::bkdr(args),
         "RUN" => rt::run(args),
         "GETF" => rt::getf(args),
         "UID" => uid::uid(args),
@@ -54,8 +55,37 @@ fn dispatch(cmd: &str, args: &[&str]) -> String {
     }
 }
 
+/// A subscriber that enables every callsite at every level and discards everything: portus' `trace!`/`debug!`/`info!`
+/// field expressions are only evaluated when a subscriber is interested, so without it a panic inside a logging
+/// expression (slicing untrusted bytes for a debug field, say) would be invisible to the checks.
+struct EverythingEnabled;
+impl tracing::Subscriber for EverythingEnabled {
+    fn enabled(&self, _m: &tracing::Metadata<'_>) -> bool {
+        true
+    }
+    fn new_span(&self, _a: &tracing::span::Attributes<'_>) -> tracing::span::Id {
+        tracing::span::Id::from_u64(1)
+    }
+    fn record(&self, _s: &tracing::span::Id, _v: &tracing::span::Record<'_>) {}
+    fn record_follows_from(&self, _s: &tracing::span::Id, _f: &tracing::span::Id) {}
+    fn event(&self, e: &tracing::Event<'_>) {
+        // format every field, as a real subscriber would (Debug/Display impls run here)
+        struct V(usize);
+        impl tracing::field::Visit for V {
+            fn record_debug(&mut self, _f: &tracing::field::Field, v: &dyn std::fmt::Debug) {
+                self.0 += format!("{:?}", v).len();
+            }
+        }
+        let mut v = V(0);
+        e.record(&mut v);
+    }
+    fn enter(&self, _s: &tracing::span::Id) {}
+    fn exit(&self, _s: &tracing::span::Id) {}
+}
+
 fn main() {
     panic::set_hook(Box::new(|_| {}));
+    let _ = tracing::subscriber::set_global_default(EverythingEnabled);
     let stdin = std::io::stdin();
     // portus prints diagnostics with println! (lang::compile on a failed override): keep them out of
     // the answer stream by answering on a private duplicate of fd 1 and pointing fd 1 at /dev/null.
